@@ -150,6 +150,10 @@ class Symx:
         self.fresh = 0
         self.real_ints = real_ints
 
+    def is_helper_sig(self, sig):
+        f = self.prog.by_sig(sig) if sig else None
+        return f is not None and bool(f.d.get('helper'))
+
     # ------------------------------------------------------------------ symbols
     def symbol(self, name, ty=None):
         kind = 'int' if (is_int_ty(ty) and not self.real_ints) else 'real'
@@ -481,6 +485,14 @@ class Symx:
             fn = self.prog.by_sig(c.get('sig'))
             if fn is not None and (q in self.inline or '*' in self.inline) and self.depth < self.inline_depth:
                 return self.inline_call(fn, None, args, st)
+            if fn is not None and fn.d.get('helper') and self.depth < self.inline_depth:
+                # file-local helper (declared in no header): implementation detail of its caller
+                snap = (dict(st.env), list(st.conds))
+                try:
+                    return self.inline_call(fn, None, args, st)
+                except Undecided:
+                    st.env.clear(); st.env.update(snap[0])
+                    st.conds[:] = snap[1]
             a = [self.sym_or_name(x, st) for x in args]
             self.havoc_mutrefs(c, args, st)
             return Function(q, real=True)(*a)
@@ -932,7 +944,7 @@ class Symx:
             for st in states:
                 e = strip(s['e'])
                 cc0 = (e.get('callee') or {}) if e['k'] == 'Call' else {}
-                if e['k'] == 'Call' and cc0.get('inrepo') and cc0.get('q') in self.inline and cc0.get('ret') == 'void' \
+                if e['k'] == 'Call' and cc0.get('inrepo') and (cc0.get('q') in self.inline or self.is_helper_sig(cc0.get('sig'))) and cc0.get('ret') == 'void' \
                         and (e.get('kind') == 'func' or (e.get('kind') == 'method' and strip(e.get('obj', {})).get('k') == 'This')) \
                         and self.depth < self.inline_depth:
                     callee = self.prog.by_sig(cc0.get('sig'))
@@ -1016,6 +1028,15 @@ class Symx:
                 live += l
                 done += d
             return live, done
+        if k == 'While':
+            f = self.while_as_for(s)
+            if f is not None:
+                live = []
+                for st in states:
+                    l, d = self.exec_for(f, st)
+                    live += l
+                    done += d
+                return live, done
         if k in ('While', 'Do'):
             for st in states:
                 self.havoc_loop(s, st)
@@ -1202,6 +1223,54 @@ class Symx:
             self.exec = saved
 
     # counted loops ---------------------------------------------------------
+    def counter_key(self, loop, st=None):
+        """env key of the counted-loop variable of `loop` (None when the loop is not counted)."""
+        f = loop
+        if loop.get('k') == 'While':
+            f = self.while_as_for(loop)
+        if f is None or f.get('k') != 'For':
+            return None
+        try:
+            cl = self.counted(f, st if st is not None else State({}), allow_extra_inc=True)
+        except Undecided:
+            return None
+        return cl[0]['id'] if cl else None
+
+    def while_as_for(self, s):
+        """while(i < hi) { body; i++; }  ->  the equivalent For node (init `i = i`), when the body has
+        no `continue` (which would skip the increment).  None when the shape is different."""
+        cond, body = s.get('cond'), s.get('body')
+        if cond is None or body is None or body['k'] != 'Compound' or not body['body']:
+            return None
+        c = strip(cond)
+        if c.get('k') != 'Bin' or c['op'] not in ('<', '<=', '!='):
+            return None
+        l = strip_casts(c['lhs'])
+        if l.get('k') != 'Ref' or l.get('id') is None:
+            return None
+        last = body['body'][-1]
+        if last['k'] != 'Expr':
+            return None
+        inc = strip(last['e'])
+        ok = False
+        if inc.get('k') == 'Un' and inc['op'] == '++' and strip(inc['e']).get('id') == l['id']:
+            ok = True
+        if inc.get('k') == 'Bin' and inc['op'] == '+=' and strip(inc['lhs']).get('id') == l['id'] \
+                and strip_casts(inc['rhs']).get('k') == 'Lit' and strip_casts(inc['rhs'])['v'] == '1':
+            ok = True
+        if not ok:
+            return None
+        rest = dict(body)
+        rest['body'] = body['body'][:-1]
+        for x in walk_stmts(rest):
+            if x['k'] == 'Continue':
+                return None
+        ref = {k_: v for k_, v in l.items()}
+        init = {'k': 'Expr', 'l': s.get('l'), 'e': {'k': 'Bin', 'op': '=', 'lhs': ref, 'rhs': ref, 'ty': l.get('ty'), 'l': s.get('l')}}
+        f = dict(s)
+        f.update({'k': 'For', 'init': init, 'cond': cond, 'inc': last['e'], 'body': rest})
+        return f
+
     def counted(self, s, st, allow_extra_inc=False):
         """Recognise for(T i = lo; i < hi; i++) -> (decl, lo, hi_exclusive) or None."""
         init, cond, inc = s.get('init'), s.get('cond'), s.get('inc')
@@ -1384,6 +1453,9 @@ class Symx:
                 st.env[key] = pre * sp.Product(ratio, (i, lo, hi - 1))
                 continue
             st.env[key] = self.fresh_symbol('%s@loop%d' % (self.lv_name(node), s['l']), node.get('ty'))
+        if s['init']['k'] != 'Decl':
+            # the counter outlives the loop: its exit value is max(lo, hi)
+            st.env[var['id']] = sp.Max(lo, hi) if strip(s['cond'])['op'] != '!=' else hi
         return [st], []
 
     def accumulate_element(self, kvs, g, t, ef, base, i, lo, hi, pc):
